@@ -61,6 +61,7 @@ func atClock(now int64, f func()) (panicMsg string) {
 
 // runCommand executes a command at the given wall clock.
 func runCommand(now int64, c cmd.Command) (err error, panicMsg string) {
+	c = throughFlags(c)
 	panicMsg = atClock(now, func() { err = c.Execute() })
 	return
 }
